@@ -207,6 +207,22 @@ def check(ctx):
     ends_raise = isinstance(cur, ast.Raise) or (isinstance(cur, ast.If) is False and isinstance(last, ast.Raise))
     ctx.check(ends_raise, "C13.R4", ec.qualname, last, "expected_class has a silent default: unsupported union members would be dispatched as `object`", ec, last, detail="final else raises TypeError")
 
+    da = model.func(f"{SER_MOD}.DiscriminatedAlternative.serialize")
+    st = [n for n in walk_no_nested(da.node) if isinstance(n, ast.Subscript) and isinstance(n.ctx, ast.Store) and norm(n.slice) == "self.alias"]
+    parents = {c: p for p in ast.walk(da.node) for c in ast.iter_child_nodes(p)}
+    ok = bool(st)
+    for n in st:
+        p = parents.get(n)
+        guarded = False
+        while p is not None:
+            if isinstance(p, ast.If) and "self.alias not in res" in norm(p.test) and "isinstance(res, dict)" in norm(p.test):
+                guarded = True
+            p = parents.get(p)
+        ok = ok and guarded
+    ctx.check(ok, "C13.R4", da.qualname, st[0] if st else da.node.body[0],
+              "the discriminator key is written even when the alternative's own serialization already produced it: a member declaring the discriminator as a multi-valued Literal field gets its value overwritten by the alternative's key and no longer round-trips",
+              da, da.node, detail="res[self.alias] = self.key only if res is a dict and the key is absent")
+
     # ---------------- R5
     check_counters(ctx, "C13.R5")
 
@@ -226,5 +242,6 @@ def mutants(mb):
                 "            try:\n                result = alt_method.deserialize(data)\n                break\n            except ValidationError as err:\n                error = merge_errors(error, err)\n        assert error is not None\n        raise error", "C13.R3", "UnionMethod")
     mb.add_text("ser-union-no-isinstance", S, "            if isinstance(obj, alternative.cls):\n                try:\n                    return alternative.serialize(obj, path)\n                except Exception:\n                    pass", "            try:\n                return alternative.serialize(obj, path)\n            except Exception:\n                pass", "C13.R4", "UnionMethod")
     mb.add_text("expected-class-default-object", "apischema/serialization/__init__.py", "    else:\n        raise TypeError(f\"{tp} is not supported in union serialization\")", "    else:\n        return object", "C13.R4", "expected_class")
+    mb.add_text("discriminator-key-overwrites", S, "        if isinstance(res, dict) and self.alias not in res:\n            res[self.alias] = self.key", "        if isinstance(res, dict):\n            res[self.alias] = self.key", "C13.R4", "DiscriminatedAlternative")
     counter_mutants(mb, "C13.R5")
     mb.add_text("neg-exclusion-rewritten", D, "                and not (float in method_by_cls and int not in method_by_cls)\n", "                and (float not in method_by_cls or int in method_by_cls)\n", negative=True)
